@@ -40,7 +40,8 @@ RULE = {
             "plus bytes inserted after '{'. "
             "non-trivial = the corrupted bytes differ from every valid frame of the case"),
     "C11": ("rtu/binary: garbage prefixes (random bytes, corrupted / truncated frames, foreign-unit frames, delimiter "
-            "runs, short brace pairs) followed by 10-14 valid frames, one per read and several per read, bare framer "
+            "runs, short brace pairs, byte-counted request / response headers with impossible byte counts 0xF0..0xFF alone, "
+            "behind 1-3 noise bytes and as a full-length frame with a flipped count bit) followed by 7-14 valid frames, one per read and several per read, bare framer "
             "and with the serial handlers' reset-on-exception. non-trivial = a valid frame after the window exists"),
 }
 TRUSTED = [
@@ -778,6 +779,64 @@ def garbage(r, kind, pool, own_units, client=False):
     return "random-long", [bytes(r.randrange(256) for _ in range(r.choice([100, 300])))]
 
 
+BYTE_COUNT_POS = {False: {15: 6, 16: 6, 23: 10, 20: 2, 21: 2},                       # ServerDecoder table
+                  True: {1: 2, 2: 2, 3: 2, 4: 2, 12: 2, 17: 2, 20: 2, 21: 2, 23: 2}}  # ClientDecoder table
+IMPOSSIBLE_COUNTS = [0xF0, 0xF4, 0xF7, 0xF8, 0xFA, 0xFC, 0xFE, 0xFF]
+
+
+def bytecount_garbage(r, kind, client, quick):
+    """line noise that parses as a byte-counted frame header with an impossible byte count (0xF0..0xFF):
+    header only, behind 1-3 noise bytes, and as a full-length legal frame whose count byte is corrupted"""
+    out = []
+    fcs = BYTE_COUNT_POS[client]
+    for j, (fc, pos) in enumerate(sorted(fcs.items())):
+        counts = IMPOSSIBLE_COUNTS if not quick else [IMPOSSIBLE_COUNTS[(j + k) % 8] for k in ((0, 3, 6) if kind == "rtu" else (1,))]
+        for bc in counts:
+            hdr = bytes([r.choice([1, 17]), fc] + [r.choice([0, 1, 0x10]) for _ in range(pos - 2)] + [bc])
+            out.append(("bc-header:%02x" % fc, [hdr]))
+            if kind == "rtu":
+                noise = bytes(r.choice([0, 0xff, r.randrange(256)]) for _ in range(r.choice([1, 2, 3])))
+                out.append(("noise+bc-header:%02x" % fc, [noise + hdr]))
+    # a legal maximal frame with one bit of its byte count flipped, whole and header first
+    spec = ("ReadHoldingRegistersResponse", ([7] * 123,), {}, {}) if client else ("WriteMultipleRegistersRequest", (1, [7] * 123), {}, {})
+    m, data, pkt = packet_of("rtu", spec, 1)
+    pos = 2 if client else 6
+    for bit in ((3,) if quick else (0, 3)):
+        bad = bytearray(pkt)
+        bad[pos] ^= 1 << bit        # 0xF6 -> 0xFE / 0xF7
+        bad = bytes(bad)
+        if kind == "bin":
+            bad = b"{" + bad.replace(b"{", b"z").replace(b"}", b"z") + b"}"
+        out.append(("bc-flipped-frame", [bad]))
+        out.append(("bc-flipped-frame-split", [bad[:pos + 1 + (kind == "bin")], bad[pos + 1 + (kind == "bin"):]]))
+    return out
+
+
+def c11_case(r, kind, client, pool, bigs, label, g, reset, per_read, nbig=4, nsmall=None):
+    own = [1, 17]
+    fs = []
+    for f in pick_frames(r, bigs, nbig, kind) + pick_frames(r, pool, nsmall or r.choice([6, 8, 10]), kind):
+        m, data, pkt = packet_of(kind, f[1], r.choice(own))
+        if kind == "bin" and has_delim(pkt[1:-1]):
+            continue
+        if not decodable(client, bytes([int(m.function_code)]) + data):
+            continue
+        fs.append((f[0], f[1], m.unit_id, bytes([int(m.function_code)]) + data, pkt))
+    reads, chunks = [], list(g)
+    for i in range(0, len(fs), per_read):
+        grp = fs[i:i + per_read]
+        reads.append(grp)
+        chunks.append(b"".join(f[4] for f in grp))
+    run = drive(kind, client, own, False, reset, chunks)
+    rt = lst(lst("(%s, %s)" % (del_t((f[3], f[2])), z(len(f[4]))) for f in grp) for grp in reads)
+    term = "(%s,\n %s, %s, %s)" % (scase_t(run), nat(len(g)), z(WINDOW), rt)
+    maxlen = max([o[3][1] or 0 for o in run["obs"]] + [0])
+    desc = run_desc(run, garbage=label, ngarb=len(g), per_read=per_read, max_hdr_len=maxlen,
+                    frames=[[f[0], f[2], f[3].hex(), len(f[4])] for f in fs])
+    return Case(term, desc, kind="%s:%s:%s:%s" % (kind, label, "reset" if reset else "bare", per_read),
+                nontrivial=sum(len(f[4]) for f in fs[:-1]) > WINDOW)
+
+
 def suite_c11(tier):
     r = common.rng("b_c11")
     quick = tier == "quick"
@@ -787,31 +846,11 @@ def suite_c11(tier):
             pool = [m for m in messages(tier, "b_msgs") if m[1] == client]
             bigs = big_pool(pool)
             for rep in range(45 if quick else 600):
-                own = [1, 17]
-                label, g = garbage(r, kind, pool, own, client)
-                reset = r.random() < 0.5
-                per_read = r.choice([1, 1, 1, 2, 3])
-                fs = []
-                for f in pick_frames(r, bigs, 4, kind) + pick_frames(r, pool, r.choice([6, 8, 10]), kind):
-                    m, data, pkt = packet_of(kind, f[1], r.choice(own))
-                    if kind == "bin" and has_delim(pkt[1:-1]):
-                        continue
-                    if not decodable(client, bytes([int(m.function_code)]) + data):
-                        continue
-                    fs.append((f[0], f[1], m.unit_id, bytes([int(m.function_code)]) + data, pkt))
-                reads, chunks = [], list(g)
-                for i in range(0, len(fs), per_read):
-                    grp = fs[i:i + per_read]
-                    reads.append(grp)
-                    chunks.append(b"".join(f[4] for f in grp))
-                run = drive(kind, client, own, False, reset, chunks)
-                rt = lst(lst("(%s, %s)" % (del_t((f[3], f[2])), z(len(f[4]))) for f in grp) for grp in reads)
-                term = "(%s,\n %s, %s, %s)" % (scase_t(run), nat(len(g)), z(WINDOW), rt)
-                maxlen = max([o[3][1] or 0 for o in run["obs"]] + [0])
-                desc = run_desc(run, garbage=label, ngarb=len(g), per_read=per_read, max_hdr_len=maxlen,
-                                frames=[[f[0], f[2], f[3].hex(), len(f[4])] for f in fs])
-                cases.append(Case(term, desc, kind="%s:%s:%s:%s" % (kind, label, "reset" if reset else "bare", per_read),
-                                  nontrivial=sum(len(f[4]) for f in fs[:-1]) > WINDOW))
+                label, g = garbage(r, kind, pool, [1, 17], client)
+                cases.append(c11_case(r, kind, client, pool, bigs, label, g, r.random() < 0.5, r.choice([1, 1, 1, 2, 3])))
+            # noise that parses as a byte-counted header with an impossible count: the receiver must not wait for ever
+            for i, (label, g) in enumerate(bytecount_garbage(r, kind, client, quick)):
+                cases.append(c11_case(r, kind, client, pool, bigs, label, g, i % 2 == 0, 1 if i % 3 else 2, nbig=3, nsmall=4))
     return Suite("b_c11", IMPORTS, "chk_c11", cases, shard=40)
 
 
